@@ -17,16 +17,19 @@ import (
 const modPath = "github.com/evanw/esbuild"
 
 type Program struct {
-	Repo     string
-	Fset     *token.FileSet
-	Prog     *ssa.Program
-	Pkgs     map[string]*ssa.Package // by import path
-	TPkgs    map[string]*packages.Package
-	AllFuncs map[*ssa.Function]bool
-	CS       *ContractSet
-	escaped  map[string]bool // struct-field key -> address escapes
-	modsets  map[*ssa.Function]*ModSet
-	LoadSecs float64
+	Repo            string
+	Fset            *token.FileSet
+	Prog            *ssa.Program
+	Pkgs            map[string]*ssa.Package // by import path
+	TPkgs           map[string]*packages.Package
+	AllFuncs        map[*ssa.Function]bool
+	CS              *ContractSet
+	escaped         map[string]bool // struct-field key -> address escapes
+	modsets         map[*ssa.Function]*ModSet
+	LoadSecs        float64
+	skipFresh       bool
+	UsedPureDynamic map[string]bool
+	whyAll          map[*ssa.Function]string
 }
 
 func LoadProgram(repo string, patterns []string) (*Program, error) {
@@ -52,7 +55,7 @@ func LoadProgram(repo string, patterns []string) (*Program, error) {
 	prog, _ := ssautil.AllPackages(pkgs, ssa.GlobalDebug|ssa.InstantiateGenerics)
 	prog.Build()
 	p := &Program{Repo: repo, Fset: prog.Fset, Prog: prog, Pkgs: map[string]*ssa.Package{}, TPkgs: map[string]*packages.Package{},
-		escaped: map[string]bool{}, modsets: map[*ssa.Function]*ModSet{}}
+		escaped: map[string]bool{}, modsets: map[*ssa.Function]*ModSet{}, UsedPureDynamic: map[string]bool{}}
 	packages.Visit(pkgs, nil, func(tp *packages.Package) {
 		p.TPkgs[tp.PkgPath] = tp
 	})
@@ -262,6 +265,8 @@ func (p *Program) modSetOf(fn *ssa.Function, ignoreOwn bool) *ModSet {
 		return ms
 	}
 	// iterative fixpoint over the static call graph reachable from fn
+	p.skipFresh = true
+	defer func() { p.skipFresh = false }()
 	work := []*ssa.Function{fn}
 	seen := map[*ssa.Function]bool{fn: true}
 	var order []*ssa.Function
@@ -303,12 +308,14 @@ func (p *Program) modSetOf(fn *ssa.Function, ignoreOwn bool) *ModSet {
 					ms.Maps[mapKey(in.Map.Type())+"!v"] = true
 				case *ssa.Go:
 					ms.All = true
+					p.noteAll(f, "go statement at "+p.Fset.Position(in.Pos()).String())
 				case *ssa.Send, *ssa.Select:
 					// channel ops do not write modelled heap
 				case ssa.CallInstruction:
 					c := in.Common()
 					if c.IsInvoke() {
 						ms.All = true
+						p.noteAll(f, "interface method call "+c.Method.Name()+" at "+p.Fset.Position(in.Pos()).String())
 						continue
 					}
 					switch cv := c.Value.(type) {
@@ -339,9 +346,14 @@ func (p *Program) modSetOf(fn *ssa.Function, ignoreOwn bool) *ModSet {
 							callees[f] = append(callees[f], cf)
 						} else {
 							ms.All = true
+							p.noteAll(f, "call of a closure value at "+p.Fset.Position(in.Pos()).String())
 						}
 					default:
+						if p.assumedPureDynamic(c.Value) {
+							continue
+						}
 						ms.All = true
+						p.noteAll(f, "call through a function value at "+p.Fset.Position(in.Pos()).String())
 					}
 				}
 			}
@@ -369,9 +381,86 @@ func (p *Program) modSetOf(fn *ssa.Function, ignoreOwn bool) *ModSet {
 func mapKey(t types.Type) string { return "M|" + typeKey(t.Underlying()) }
 
 // storeKeys adds the heap maps a store through addr may write.
+// freshRoot reports whether an address is derived (by field/index selection only) from an allocation
+// made in the same function: writes through it touch objects the caller could not observe before.
+func freshRoot(addr ssa.Value) bool {
+	return freshRootSeen(addr, map[ssa.Value]bool{})
+}
+
+func freshRootSeen(addr ssa.Value, seen map[ssa.Value]bool) bool {
+	for {
+		switch a := addr.(type) {
+		case *ssa.Phi:
+			if seen[a] {
+				return true
+			}
+			seen[a] = true
+			for _, e := range a.Edges {
+				if c, ok := e.(*ssa.Const); ok && c.Value == nil {
+					continue
+				}
+				if !freshRootSeen(e, seen) {
+					return false
+				}
+			}
+			return true
+		case *ssa.FieldAddr:
+			addr = a.X
+		case *ssa.IndexAddr:
+			if _, isSlice := a.X.Type().Underlying().(*types.Slice); isSlice {
+				return freshSlice(a.X, map[ssa.Value]bool{})
+			}
+			addr = a.X
+		case *ssa.Alloc:
+			return true
+		default:
+			return false
+		}
+	}
+}
+
+// freshSlice: the slice's backing array was allocated in this function (make, append onto a fresh or
+// nil slice, re-slicing of such a slice, or a phi of such values).
+func freshSlice(v ssa.Value, seen map[ssa.Value]bool) bool {
+	if seen[v] {
+		return true
+	}
+	seen[v] = true
+	switch a := v.(type) {
+	case *ssa.MakeSlice:
+		return true
+	case *ssa.Const:
+		return a.Value == nil
+	case *ssa.Slice:
+		if al, ok := a.X.(*ssa.Alloc); ok {
+			_ = al
+			return true
+		}
+		if _, isSlice := a.X.Type().Underlying().(*types.Slice); isSlice {
+			return freshSlice(a.X, seen)
+		}
+		return false
+	case *ssa.Phi:
+		for _, e := range a.Edges {
+			if !freshSlice(e, seen) {
+				return false
+			}
+		}
+		return true
+	case *ssa.Call:
+		if b, ok := a.Call.Value.(*ssa.Builtin); ok && b.Name() == "append" {
+			return freshSlice(a.Call.Args[0], seen)
+		}
+	}
+	return false
+}
+
 func (p *Program) storeKeys(addr ssa.Value, ms *ModSet) {
 	if _, _, priv := privRoot(addr); priv {
 		return // private local cell: invisible to callers
+	}
+	if p.skipFresh && freshRoot(addr) {
+		return
 	}
 	pt, ok := addr.Type().Underlying().(*types.Pointer)
 	if !ok {
@@ -487,4 +576,147 @@ func (p *Program) DeclaredMods(fc *FuncContract) *ModSet {
 		}
 	}
 	return ms
+}
+
+func (p *Program) noteAll(f *ssa.Function, why string) {
+	if p.whyAll == nil {
+		p.whyAll = map[*ssa.Function]string{}
+	}
+	if _, ok := p.whyAll[f]; !ok {
+		p.whyAll[f] = f.String() + ": " + why
+	}
+}
+
+// WhyAll explains why the inferred frame of fn is unbounded (first reason found in its call graph).
+func (p *Program) WhyAll(fn *ssa.Function) string {
+	seen := map[*ssa.Function]bool{}
+	var walk func(f *ssa.Function) string
+	walk = func(f *ssa.Function) string {
+		if seen[f] {
+			return ""
+		}
+		seen[f] = true
+		if w, ok := p.whyAll[f]; ok {
+			return w
+		}
+		for _, b := range f.Blocks {
+			for _, in := range b.Instrs {
+				if ci, ok := in.(ssa.CallInstruction); ok {
+					if callee := ci.Common().StaticCallee(); callee != nil {
+						if w := walk(callee); w != "" {
+							return w
+						}
+					}
+				}
+			}
+		}
+		if f.Blocks == nil {
+			return f.String() + ": no body and not known to be pure"
+		}
+		return ""
+	}
+	return walk(fn)
+}
+
+// assumedPureDynamic: a call through a struct field named in a `//@ pure-dynamic Type.field` directive
+// is assumed not to write the modelled heap (an assumption, echoed in evidence).
+func (p *Program) assumedPureDynamic(v ssa.Value) bool {
+	var st *types.Struct
+	var idx int
+	var named types.Type
+	switch x := v.(type) {
+	case *ssa.Field:
+		named = x.X.Type()
+		st, _ = named.Underlying().(*types.Struct)
+		idx = x.Field
+	case *ssa.UnOp:
+		fa, ok := x.X.(*ssa.FieldAddr)
+		if !ok {
+			return false
+		}
+		named = fa.X.Type().Underlying().(*types.Pointer).Elem()
+		st, _ = named.Underlying().(*types.Struct)
+		idx = fa.Field
+	default:
+		return false
+	}
+	if st == nil {
+		return false
+	}
+	tn := ""
+	if n, ok := named.(*types.Named); ok {
+		tn = n.Obj().Name()
+	}
+	key := tn + "." + st.Field(idx).Name()
+	if p.CS == nil {
+		return false
+	}
+	for _, d := range p.CS.Dirs {
+		if d.Kind == "pure-dynamic" {
+			for _, f := range strings.Fields(d.Text) {
+				if f == key {
+					p.UsedPureDynamic[key] = true
+					return true
+				}
+			}
+		}
+	}
+	return false
+}
+
+// WhyKey finds a store (position) in fn's static call graph that contributes heap key k to its inferred frame.
+func (p *Program) WhyKey(fn *ssa.Function, k string) string {
+	p.skipFresh = true
+	defer func() { p.skipFresh = false }()
+	seen := map[*ssa.Function]bool{}
+	var walk func(f *ssa.Function) string
+	walk = func(f *ssa.Function) string {
+		if seen[f] || f.Blocks == nil {
+			return ""
+		}
+		seen[f] = true
+		if fc := p.ContractFor(f); fc != nil && fc.HasMods && f != fn {
+			if p.DeclaredMods(fc).Maps[k] {
+				return f.String() + " (declared frame)"
+			}
+			return ""
+		}
+		for _, b := range f.Blocks {
+			for _, in := range b.Instrs {
+				switch in := in.(type) {
+				case *ssa.Store:
+					ms := &ModSet{Maps: map[string]bool{}}
+					p.storeKeys(in.Addr, ms)
+					if ms.Maps[k] {
+						return f.String() + " at " + p.Fset.Position(in.Pos()).String()
+					}
+				case ssa.CallInstruction:
+					c := in.Common()
+					if b, ok := c.Value.(*ssa.Builtin); ok && b.Name() == "copy" {
+						ms := &ModSet{Maps: map[string]bool{}}
+						if st, ok := c.Args[0].Type().Underlying().(*types.Slice); ok {
+							p.typeKeys(st.Elem(), true, ms)
+						}
+						if ms.Maps[k] {
+							return f.String() + " (copy) at " + p.Fset.Position(in.Pos()).String()
+						}
+					}
+					if callee := c.StaticCallee(); callee != nil {
+						if w := walk(callee); w != "" {
+							return w
+						}
+					}
+					if mc, ok := c.Value.(*ssa.MakeClosure); ok {
+						if cf, ok := mc.Fn.(*ssa.Function); ok {
+							if w := walk(cf); w != "" {
+								return w
+							}
+						}
+					}
+				}
+			}
+		}
+		return ""
+	}
+	return walk(fn)
 }
